@@ -163,7 +163,7 @@ theorem probe_tri_mem_mid {Lx Ly Lz : Nat} {a x y z : Int} (hst : ST Lx Ly Lz a 
   rcases hc with rfl | rfl | ⟨rfl, hp⟩ <;> simp at hs <;> repeat' split
   all_goals first | (exfalso; omega) | (apply key; omega)
 
-theorem probe_tri_mem_last {Lx Ly Lz : Nat} (hLx : 2 ≤ Lx) (hex : Lx % 2 = 0) {a x y z : Int}
+theorem probe_tri_mem_last {Lx Ly Lz : Nat} (_hLx : 2 ≤ Lx) (hex : Lx % 2 = 0) {a x y z : Int}
     (hst : ST Lx Ly Lz a x y z) (h0 : x = 2*(Lx:Int)-2)
     (hc : a = 2 ∨ a = 3 ∨ (a = 1 ∧ ¬ (y = 0 ∧ z = 0))) :
     (probe Lx Ly Lz [a, x, y, z]).1 ∈ triKeys Lx Ly Lz a x y z := by
